@@ -111,3 +111,22 @@ def raise_condition_is(ck, module, fn, pick, classify, expected, what, key, rule
           '{}: the input is rejected exactly when {} ({} rows){}'.format(
               what, expected, rows, '' if eq and not unknown else ' -- found condition {}{}'.format(flow.show(f)[:200], '; unrecognised: ' + '; '.join(unknown) if unknown else '')),
           key=key)
+
+
+def evaluated_whenever_statement_runs(module, expr, stmt):
+    """`expr` (somewhere inside `stmt`) is evaluated every time `stmt` executes: it does not sit behind a short-circuit (`a and expr`,
+    `a or expr`), in a conditional expression's arms, in a lambda or in a filtered comprehension."""
+    child = expr
+    for anc in module.ancestors(expr):
+        if isinstance(anc, ast.BoolOp) and anc.values[0] is not child:
+            return False
+        if isinstance(anc, ast.IfExp) and anc.test is not child:
+            return False
+        if isinstance(anc, ast.Lambda):
+            return False
+        if isinstance(anc, (ast.ListComp, ast.SetComp, ast.DictComp, ast.GeneratorExp)) and not any(g.iter is child for g in anc.generators[:1]):
+            return False
+        if anc is stmt:
+            return True
+        child = anc
+    return False
